@@ -20,24 +20,29 @@ def run(prop):
     rules=sorted(set(re.findall(r'rule=(C\d+\.\w+)',r.stdout)))
     return r.returncode, rules
 try:
-    sel=sys.argv[1:] or sorted(os.path.basename(d) for d in glob.glob(f'{V}/campaign/C*'))
+    sel=sys.argv[1:] or sorted(os.path.basename(d) for d in glob.glob(f'{V}/campaign/C*') if os.path.isdir(d))
     for pdir in sel:
         for d in sorted(glob.glob(f'{V}/campaign/{pdir}/*.diff')):
             name=f'{pdir}/{os.path.basename(d)[:-5]}'
             subprocess.run(['git','-C',W,'checkout','-q','--','.']); subprocess.run(['git','-C',W,'clean','-fdq'])
             if subprocess.run(['git','-C',W,'apply',d]).returncode!=0:
                 print(name,'DOES-NOT-APPLY'); continue
-            rc,rules=run(pdir)
+            prop=pdir.split('.')[0]
+            rc,rules=run(prop)
             if rc==1 and rules:
-                own=[r for r in rules if r.startswith(pdir+'.')] or rules
+                own=[r for r in rules if r.startswith(prop+'.')] or rules
                 exp[name]={'expect':own[0],'note':'all: '+' '.join(rules)}; unc.pop(name,None)
                 print(name,'CAUGHT',own[0]); continue
             found=None
-            for p in props:
-                if p==pdir: continue
-                rc,rules=run(p)
-                if rc==1 and rules:
-                    found=(rules[0],rules); break
+            from concurrent.futures import ThreadPoolExecutor
+            others=[p for p in props if p!=prop]
+            with ThreadPoolExecutor(max_workers=10) as ex:
+                res=list(ex.map(run, others))
+            allrules=[]
+            for (rc,rules) in res:
+                if rc==1: allrules+=rules
+            if allrules:
+                found=(sorted(allrules)[0],sorted(set(allrules)))
             if found:
                 exp[name]={'expect':found[0],'note':'neighbour; all: '+' '.join(found[1])}; unc.pop(name,None)
                 print(name,'CAUGHT (neighbour)',found[0])
